@@ -1093,6 +1093,12 @@ theorem c08_session_key_proved_fresh (S : Setting) (evs : List Ev) (w : World)
       simpa [peerKey] using h2
   exact c08_fresh_signature S evs w hrun i c d.1.pub hacc hkey hhon
 
+/-- **no dial without the means to prove**: `NewTLSConn` goes on to a handshake exactly when the address is
+a TLS address and the node holds its private key; otherwise nothing is sent at all -/
+theorem c08_dial_preconditions (addrIsTLS hasPrivate : Bool) :
+    dialPre addrIsTLS hasPrivate = none ↔ addrIsTLS = true ∧ hasPrivate = true := by
+  cases addrIsTLS <;> cases hasPrivate <;> simp [dialPre]
+
 /-! ### the code regions the model stands for
 Regenerated from /repo's source on every run (`harness/cmd/astfacts` → `OnetVerif/Shapes.lean`): the
 calls that matter for synchronisation and data flow, the lock regions and (for decision logic) the
